@@ -15,6 +15,10 @@ Byte strings are `List Nat` (every element < 256; Go strings/[]byte are bytes).
 * gzip: an abstract pair of functions (compress/gzip is trusted); see Props.
 * glue: `project`/`inject` for the converters used by the wrappers, `wrap` for a wrapper
   (arity check, converters, the exported function's own tests `Sig.pre`, the Go call).
+* regexp: the hand-written wrappers of modules/regexp (`RxSig`, `rxWrap`, the reviewed
+  inventory `rxSigs` with the fact `Body.direct`: the body is ONE call into Go's package regexp
+  and nothing else), Go's replacement-template expansion (`expand`) and ReplaceAllString on a
+  literal pattern next to `strings.ReplaceAll` (`regexpReplaceAllLit`, `stringsReplaceAll`).
 * sessions: several calls whose results are kept; Spec = immutable values (`runSpec`), Impl =
   references into a heap of buffers with the code's allocation policy (`runImpl fresh`).
 -/
@@ -716,6 +720,205 @@ def goPanics (go : String) (gs : List GoVal) : Bool :=
   match go, gs with
   | "strings.Repeat", [.str s, .int n] => n < 0 || (maxInt64 < (s.length : Int) * n)
   | _, _ => false
+
+/-! ## the hand-written wrappers of modules/regexp (regexp.go, regexp_object.go)
+
+`regexp.compile`, `regexp.match` and the methods of a compiled pattern (`match`, `find`,
+`find_all`, `find_submatch`, `replace_all`, `split`) are written by hand, not generated: an
+arity test, `object.As…` converters on `args[i]` in order, ONE call into Go's package `regexp`
+— a package function on the pattern string, or a method of the compiled pattern `r.value` —
+and a constructor around its result.  The Go library is the reference by the property's own
+wording, so it is a parameter here (`GoFunE`); what is modelled is the glue, and the fact that
+matters for "returns exactly what the Go function returns": whether the body is that one call
+and nothing else (`Body.direct`).
+
+A compiled pattern is identified by its source text (`regexp.Compile` is a function of it):
+the receiver of a method is the first converted value `.str source`, and `regexp.compile`
+returns `.str source` standing for the regexp object. -/
+
+/-- what a call into the Go library gives back: a value, an `error` result, or a panic -/
+inductive GoOut where
+  | val (g : GoVal)
+  | error
+  | panic
+  deriving Repr, DecidableEq
+
+/-- a Go library function that may report an error (`(T, error)`) -/
+abbrev GoFunE := List GoVal → GoOut
+
+/-- what a wrapper returns for the outcome of its Go call: the injected value, an error VALUE
+    for an `error` result (`object.NewError(rErr)`), and a panic only if Go panicked -/
+def outOfE : GoOut → Out
+  | .val r => .val (inject r)
+  | .error => .err
+  | .panic => .panic
+
+/-- a total Go function seen as one that never reports an error -/
+def liftFun (f : GoFun) : GoFunE := fun gs =>
+  match f gs with
+  | some r => .val r
+  | none => .panic
+
+/-- how the body of a hand-written wrapper gets from its converted arguments to its result.
+    `direct`: exactly ONE call of the library function/method, on the converted arguments in the
+    recorded order, and its result goes into the constructor (element by element for a list) —
+    no other call, no branch on the data, no second way to a result.
+    `other`: anything else (a fast path, a second library call, a branch on the pattern or on
+    an argument, a result that does not come from the call). -/
+inductive Body where
+  | direct
+  | other
+  deriving Repr, DecidableEq
+
+/-- one hand-written wrapper of modules/regexp.  `sig`: registered name, Go function
+    (`regexp.X` a package function, `Regexp.X` a method of the compiled pattern), converters in
+    argument order — for a method the receiver comes first, as `.str` —, the order in which the
+    converted values are passed on, result constructor, no tests of its own.  `recv`: method of a
+    compiled pattern.  `optInt`: the last parameter may be omitted and is then this number
+    (`n := -1`).  `retErr`: the Go function returns `(T, error)` and the error is handed back as
+    `object.NewError`.  `compiled`: the result constructor is `NewRegexp` (a regexp object).
+    `body`: see `Body`. -/
+structure RxSig where
+  sig : Sig
+  recv : Bool
+  optInt : Option Int
+  retErr : Bool
+  compiled : Bool
+  body : Body
+  deriving Repr, DecidableEq
+
+/-- the argument list with an omitted optional last argument filled in -/
+def RxSig.fill (w : RxSig) (args : List Val) : List Val :=
+  match w.optInt with
+  | some d => if args.length + 1 = w.sig.args.length then args ++ [.int d] else args
+  | none => args
+
+/-- Impl: a hand-written regexp wrapper around the Go function `f`, on its arguments (for a
+    method: the receiver first).  `alt` stands for whatever a body that is NOT the direct call
+    computes from the converted arguments. -/
+def rxWrap (w : RxSig) (f : GoFunE) (alt : List GoVal → Out) (args : List Val) : Out :=
+  if (w.fill args).length ≠ w.sig.args.length then .argsErr
+  else match projectAll w.sig.args (w.fill args) with
+    | none => .typeErr
+    | some gs =>
+      match w.body with
+      | .direct => outOfE (f (passed w.sig gs))
+      | .other => alt gs
+
+/-- Spec ("returns exactly what the Go function returns, errors as script errors"): arity and
+    type errors for ill-formed calls, otherwise the injection of what the Go function gives on
+    the projected arguments -/
+def rxSpec (w : RxSig) (f : GoFunE) (args : List Val) : Out :=
+  rxWrap { w with body := .direct } f (fun _ => .panic) args
+
+/-- the wrappers of modules/regexp (hand-written twin of the regenerated inventory) -/
+def rxSigs : List RxSig := [
+  ⟨⟨"regexp.compile", "regexp.Compile", [.str], [0], .str, []⟩, false, none, true, true, .direct⟩,
+  ⟨⟨"regexp.match", "regexp.MatchString", [.str, .str], [0, 1], .bool, []⟩, false, none, true, false, .direct⟩,
+  ⟨⟨"match", "Regexp.MatchString", [.str, .str], [0, 1], .bool, []⟩, true, none, false, false, .direct⟩,
+  ⟨⟨"find", "Regexp.FindString", [.str, .str], [0, 1], .str, []⟩, true, none, false, false, .direct⟩,
+  ⟨⟨"find_all", "Regexp.FindAllString", [.str, .str, .int], [0, 1, 2], .strList, []⟩, true, some (-1), false, false, .direct⟩,
+  ⟨⟨"find_submatch", "Regexp.FindStringSubmatch", [.str, .str], [0, 1], .strList, []⟩, true, none, false, false, .direct⟩,
+  ⟨⟨"replace_all", "Regexp.ReplaceAllString", [.str, .str, .str], [0, 1, 2], .str, []⟩, true, none, false, false, .direct⟩,
+  ⟨⟨"split", "Regexp.Split", [.str, .str, .int], [0, 1, 2], .strList, []⟩, true, some (-1), false, false, .direct⟩ ]
+
+def findRx (name : String) : Option RxSig := rxSigs.find? (·.sig.name == name)
+
+/-! ### replacement templates (`Regexp.ReplaceAllString` / `Regexp.Expand`)
+
+The second argument of `replace_all` is not text but a TEMPLATE: Go expands `$$` to `$`,
+`$name` / `${name}` to the text of the group with that number or name (nothing if the group
+does not exist or did not take part in the match), and leaves a `$` that starts no valid
+reference as it is.  `expand` is Go's `(*Regexp).expand` with `extract`, for templates whose
+bytes are ASCII (a name is a run of ASCII letters, digits and `_`; the harness asks only for
+such templates — Go's `unicode.IsLetter` on other runes is outside this model).  Modelled by
+hand and compared with the real `Regexp.ExpandString` / `ReplaceAllString` on every run. -/
+
+def isDigitB (c : Nat) : Bool := 48 ≤ c && c ≤ 57
+
+def isWordB (c : Nat) : Bool := isDigitB c || (65 ≤ c && c ≤ 90) || (97 ≤ c && c ≤ 122) || c == 95
+
+/-- the longest prefix whose bytes satisfy `p`, and the rest -/
+def cutWhile (p : Nat → Bool) : Bytes → Bytes × Bytes
+  | [] => ([], [])
+  | c :: t => if p c then ((cutWhile p t).1.cons c, (cutWhile p t).2) else ([], c :: t)
+
+/-- Go's `extract`: the reference that starts right after a `$` — its name and the rest of the
+    template — or `none` if there is none (`$` then stays text) -/
+def extractRef (t : Bytes) : Option (Bytes × Bytes) :=
+  match t with
+  | [] => none
+  | 123 :: t' =>
+    match cutWhile isWordB t' with
+    | ([], _) => none
+    | (name, 125 :: rest) => some (name, rest)
+    | _ => none
+  | _ =>
+    match cutWhile isWordB t with
+    | ([], _) => none
+    | (name, rest) => some (name, rest)
+
+def natOfDigits (ds : Bytes) : Nat := ds.foldl (fun n c => n * 10 + (c - 48)) 0
+
+/-- the group NUMBER a name denotes: all digits, no leading zero (except "0" itself), at most
+    nine digits (Go gives up at 10^8 before reading a further digit); otherwise it is a NAME -/
+def refNum (name : Bytes) : Option Nat :=
+  if name.all isDigitB && !(name.head? == some 48 && 1 < name.length) && name.length ≤ 9
+  then some (natOfDigits name) else none
+
+/-- the first group called `name` that took part in the match -/
+def namedGroup (name : Bytes) : List Bytes → List (Option Bytes) → Bytes
+  | n :: ns, g :: gs =>
+    match g with
+    | some txt => if n == name then txt else namedGroup name ns gs
+    | none => namedGroup name ns gs
+  | _, _ => []
+
+/-- the text a reference expands to: `groups` are the submatches of one match (0 = the whole
+    match, `none` = took no part), `names` the names of the groups (`Regexp.SubexpNames`) -/
+def refText (groups : List (Option Bytes)) (names : List Bytes) (name : Bytes) : Bytes :=
+  match refNum name with
+  | some k => (groups.getD k none).getD []
+  | none => namedGroup name names groups
+
+def expandF (look : Bytes → Bytes) : Nat → Bytes → Bytes
+  | 0, t => t
+  | fuel + 1, t =>
+    match cutWhile (· != 36) t with
+    | (before, []) => before
+    | (before, _ :: 36 :: t2) => before ++ 36 :: expandF look fuel t2
+    | (before, _ :: t1) =>
+      match extractRef t1 with
+      | none => before ++ 36 :: expandF look fuel t1
+      | some (name, rest) => before ++ look name ++ expandF look fuel rest
+
+/-- Go's template expansion for one match -/
+def expand (groups : List (Option Bytes)) (names : List Bytes) (t : Bytes) : Bytes :=
+  expandF (refText groups names) (t.length + 1) t
+
+/-- does `lit` start here -/
+def startsWith : Bytes → Bytes → Bool
+  | [], _ => true
+  | _ :: _, [] => false
+  | a :: l, b :: s => a == b && startsWith l s
+
+/-- every non-overlapping occurrence of the non-empty byte string `lit` in `s`, left to right,
+    replaced by `sub` (`skip`: bytes of an occurrence still to be passed over):
+    `strings.ReplaceAll(s, lit, sub)` -/
+def replaceLit (lit sub : Bytes) : Nat → Bytes → Bytes
+  | _, [] => []
+  | skip + 1, _ :: s => replaceLit lit sub skip s
+  | 0, c :: s =>
+    if lit != [] && startsWith lit (c :: s) then sub ++ replaceLit lit sub (lit.length - 1) s
+    else c :: replaceLit lit sub 0 s
+
+/-- `strings.ReplaceAll(s, lit, repl)` for a non-empty `lit`: `repl` goes in VERBATIM -/
+def stringsReplaceAll (s lit repl : Bytes) : Bytes := replaceLit lit repl 0 s
+
+/-- `regexp.MustCompile(QuoteMeta(lit)).ReplaceAllString(s, repl)` for a non-empty literal
+    pattern (no operator, no flag, no group): the matches are the occurrences of `lit`, there is
+    one group (the whole match) and `repl` is EXPANDED for each -/
+def regexpReplaceAllLit (s lit repl : Bytes) : Bytes := replaceLit lit (expand [some lit] [[]] repl) 0 s
 
 /-! ## sessions: several calls whose results stay alive while later calls run
 
